@@ -88,24 +88,30 @@ package tabula
 //@   flags nosafety, releases
 //@   callsite FilterFragments(pi, fr, h) requires pi == pd.index && sameseq(fr, pd.fragments) && h == pd.page.Height()
 //@ func (*Extractor) ReadingOrder
-//@   property C10
-//@   flags frameonly, releases
+//@   property C10, C11
+//@   flags callsites, releases
+//@   callsite FilterFragments(pi, fr, h) requires pi == pageNum && h == page.Height()
 //@ func (*Extractor) Analyze
-//@   property C10
-//@   flags frameonly, releases
+//@   property C10, C11
+//@   flags callsites, releases
+//@   callsite FilterFragments(pi, fr, h) requires pi == pageNum && h == page.Height()
 //@ func (*Extractor) Headings
-//@   property C10
-//@   flags frameonly, releases
+//@   property C10, C11
+//@   flags callsites, releases
+//@   callsite FilterFragments(pi, fr, h) requires pi == pageNum && h == page.Height()
 //@ func (*Extractor) Lists
-//@   property C10
-//@   flags frameonly, releases
+//@   property C10, C11
+//@   flags callsites, releases
+//@   callsite FilterFragments(pi, fr, h) requires pi == pageNum && h == page.Height()
 //@ func (*Extractor) Blocks
-//@   property C10
-//@   flags frameonly, releases
+//@   property C10, C11
+//@   flags callsites, releases
+//@   callsite FilterFragments(pi, fr, h) requires pi == pageNum && h == page.Height()
 //@ func (*Extractor) Document
-//@   property C10
+//@   property C10, C11
 //@   flags nosafety, releases
 //@   callsite AddPage(p) requires p.Number == pageNum + 1
+//@   callsite FilterFragments(pi, fr, h) requires pi == pageNum && h == page.Height()
 //@   loop 6:
 //@     invariant modelPage.Number == pageNum + 1
 //@   loop 7:
